@@ -9,6 +9,7 @@ CONSTANTS
   InitStores <- CollStores
   PublishAfterUnlock = TRUE
   CreatedRevalidated = TRUE
+  DeleteHoldsLock = TRUE
   Equiv = "none"
   SubSer = FALSE
   MayCancel = FALSE
